@@ -25,11 +25,12 @@ struct Cfg {
     /// covariance I + 2*11^T instead of a diagonal one (the low-rank estimator then keeps
     /// eigenvalues and the eigen-statistics carry values)
     correlated: bool,
+    num_tune: u64,
 }
 
 fn tweaks(c: &Cfg) -> Tweaks {
     let mut t = Tweaks::default();
-    t.num_tune = 8;
+    t.num_tune = c.num_tune;
     t.num_draws = 4;
     t.maxdepth = Some(3);
     t.store_gradient = c.flags & 1 != 0;
@@ -86,7 +87,7 @@ fn check_history(c: &Cfg, faults: &[(u64, FaultKind)], p: &mut Partial, tag: &st
         (schema, res)
     });
     p.evaluations += 1;
-    let key = format!("{:?}/flags{}/mm{}/gb{}/dim{}{}/{tag}", c.preset, c.flags, c.store_mass_matrix, c.grad_based, c.dim, if c.correlated { "corr" } else { "" });
+    let key = format!("{:?}/flags{}/mm{}/gb{}/dim{}{}{}/{tag}", c.preset, c.flags, c.store_mass_matrix, c.grad_based, c.dim, if c.correlated { "corr" } else { "" }, if c.num_tune != 8 { format!("/tune{}", c.num_tune) } else { String::new() });
     let replay = json!({"config": format!("{c:?}"), "faults": format!("{faults:?}")});
     if !matches!(res.end, RunEnd::Completed) {
         p.count(&format!("history_not_completed:{:?}:{}", c.preset, format!("{:?}", res.end).chars().take(60).collect::<String>()), 1);
@@ -235,9 +236,14 @@ pub fn run(tier: Tier, _replay: Option<String>) -> i32 {
                         continue;
                     }
                     for &dim in &dims {
-                        cfgs.push(Cfg { preset, flags, store_mass_matrix: mm, grad_based: gb, dim, correlated: false });
+                        cfgs.push(Cfg { preset, flags, store_mass_matrix: mm, grad_based: gb, dim, correlated: false, num_tune: 8 });
+                        // no warmup at all / a single warmup draw: the chain starts (almost) frozen
+                        if flags == 0 || flags == 15 {
+                            cfgs.push(Cfg { preset, flags, store_mass_matrix: mm, grad_based: gb, dim, correlated: false, num_tune: 0 });
+                            cfgs.push(Cfg { preset, flags, store_mass_matrix: mm, grad_based: gb, dim, correlated: false, num_tune: 1 });
+                        }
                         if dim >= 2 && matches!(preset, Preset::LowRankNuts | Preset::LowRankMclmc) {
-                            cfgs.push(Cfg { preset, flags, store_mass_matrix: mm, grad_based: gb, dim, correlated: true });
+                            cfgs.push(Cfg { preset, flags, store_mass_matrix: mm, grad_based: gb, dim, correlated: true, num_tune: 8 });
                         }
                     }
                 }
